@@ -54,6 +54,15 @@ GuardCases == {[fam |-> "guard", prog |-> <<If(<<Spy("sp", "s1", Var(c1)), Spy("
               \cup {[fam |-> "guard", prog |-> <<If(<<Bin("==", Var("n"), LI(0)), Bin(">", Bin("/", LI(6), Var("n")), LI(2)), Bin("==", Bin("%", LI(12), Var("n")), LI(0))>>,
                                                      <<<<T1(65)>>, <<T1(66)>>, <<T1(67)>>>>, <<T1(69)>>, TRUE), T1(46)>>,
                       ctx |-> ("n" :> VI(n)), tags |-> {"if", "guard", "divide"}, spies |-> FALSE] : n \in {0, 1, 2, 3, 6}}
+\* an if whose whole body is another if (no text between the tags), with and without else branches on either
+NestedIfCases == {[fam |-> "nestedif", prog |-> <<If(<<Var(c1)>>, <<<<If(<<Var(c2)>>, <<<<T1(65)>>>>, IF e2 THEN <<T1(66)>> ELSE <<>>, e2)>>>>, IF e1 THEN <<T1(67)>> ELSE <<>>, e1), T1(46)>>,
+                    ctx |-> CondCtx, tags |-> {"if", "nestedif"}]
+                  : c1 \in GuardConds, c2 \in GuardConds, e1 \in BOOLEAN, e2 \in BOOLEAN}
+                 \cup {[fam |-> "nestedif", prog |-> <<If(<<Var(c1)>>, <<<<If(<<Var(c2), Var(c3)>>, <<<<T1(65)>>, <<T1(68)>>>>, <<T1(66)>>, TRUE)>>>>, <<>>, FALSE), T1(46)>>,
+                    ctx |-> CondCtx, tags |-> {"if", "nestedif"}] : c1 \in {"c00", "c01"}, c2 \in {"c00", "c01"}, c3 \in {"c00", "c01"}}
+                 \cup {[fam |-> "nestedif", prog |-> <<If(<<Var(c1)>>, <<<<For1("i", Lit(VL(<<VI(1)>>)), <<T1(65)>>)>>>>, <<>>, FALSE),
+                                                       If(<<Var(c1)>>, <<<<If(<<Var(c2)>>, <<<<Set("z", LI(1))>>>>, <<Set("z", LI(2))>>, TRUE)>>>>, <<>>, FALSE), PrintS(Var("z")), T1(46)>>,
+                    ctx |-> CondCtx, tags |-> {"if", "nestedif"}] : c1 \in {"c00", "c01"}, c2 \in {"c00", "c01"}}
 \* literal conditions too (no context): the same values written in the template
 LitConds == {LB(FALSE), LB(TRUE), LI(0), LI(1), LS(<<>>), LS(<<97>>), Lit(Null), Arr(<<>>), Arr(<<LI(0)>>),
              Hash(<<>>, <<>>), Hash(<<LS(<<107>>)>>, <<LI(0)>>)}
@@ -94,6 +103,12 @@ SeqSources ==
     \cup {[e |-> Call("range", <<LI(a), LI(b)>>), ctx |-> EmptyFn, tag |-> "range2"] : a \in 0..3, b \in 0..3}
     \cup {[e |-> Call("range", <<Var("a"), Var("b"), Var("c")>>), ctx |-> ("a" :> VI(a)) @@ ("b" :> VI(b)) @@ ("c" :> VI(c)),
            tag |-> "range3"] : a \in -2..3, b \in -2..3, c \in {-2, -1, 1, 2}}
+    \* a sequence that a filter makes out of nothing: the filter is applied whatever its subject is
+    \cup {[e |-> Filt("default", b, <<Lit(IntList(2))>>), ctx |-> EmptyFn, tag |-> "defaulted"] : b \in {Var("u"), Lit(Null), Attr(Var("u"), "k")}}
+    \cup {[e |-> Filt("upper", Filt("default", Var("u"), <<LS(<<97, 98>>)>>), <<>>), ctx |-> EmptyFn, tag |-> "defaulted"],
+          [e |-> Filt("merge", Filt("default", Var("u"), <<Arr(<<>>)>>), <<Arr(<<LI(1)>>)>>), ctx |-> EmptyFn, tag |-> "defaulted"],
+          [e |-> Filt("default", Var("u"), <<Arr(<<>>)>>), ctx |-> EmptyFn, tag |-> "defaulted"],
+          [e |-> Filt("default", Cond(Var("u"), LI(1), Lit(Null)), <<LS(<<120>>)>>), ctx |-> EmptyFn, tag |-> "defaulted"]}
     \cup {[e |-> Var("u"), ctx |-> EmptyFn, tag |-> "undefined"], [e |-> Var("u"), ctx |-> ("u" :> Null), tag |-> "null"]}
 
 LoopCases == {[fam |-> "loop", prog |-> LoopProg(q.e, el), ctx |-> q.ctx,
@@ -206,7 +221,7 @@ NameClashCases ==
               @@ ("t2" :> <<T1(91), Block("b1", <<T1(80), PrintS(Var("y"))>>), Block("b2", <<PrintS(Var("x"))>>), T1(93)>>),
       prog |-> <<Extends(LS(NT.t1)), Set("x", LI(1)), Block("b2", <<T1(60), PrintS(Var("x")), PrintS(Var("y")), T1(62)>>)>>]}
 
-AllCases == GuardCases \cup NameClashCases \cup NamedCases \cup RecCases \cup GlobalCases \cup IfCases \cup EmptyBranchCases \cup NullCases \cup CompIfCases \cup LitIfCases \cup LoopCases \cup KvCases \cup NestCases \cup Nest3 \cup SetCases
+AllCases == NestedIfCases \cup GuardCases \cup NameClashCases \cup NamedCases \cup RecCases \cup GlobalCases \cup IfCases \cup EmptyBranchCases \cup NullCases \cup CompIfCases \cup LitIfCases \cup LoopCases \cup KvCases \cup NestCases \cup Nest3 \cup SetCases
 
 Tps(c) == ("main" :> c.prog) @@ (IF "tps" \in DOMAIN c THEN c.tps ELSE EmptyFn)
 World(c) == MkW(Tps(c), {}, {}, NoFault)
